@@ -13,26 +13,41 @@ def cmd(text, spec):
     return 'M %s %s' % (vf.hx(text + '\n'), spec)
 
 
+# K:<NAME>[:v] = a command of the command-layer model (coq/CmdModel.v); the extracted driver runs CmdModel.cmd_do / cmd_resp
+# for it, so the response text of the numeric queries is compared too.  KOLD gives the register operation a K spec stands
+# for (the form the oracles of C11/C12 read: W:r:v write, B:r:v set bits, L = *CLS, O = pop, Z = no effect).
+KOLD = {'CLS': 'L', 'ESE': 'W:3:%d', 'SRE': 'W:1:%d', 'OPEREN': 'W:5:%d', 'QUESEN': 'W:8:%d', 'ESRQ': 'W:2:0', 'OPEREVQ': 'W:4:0',
+        'QUESEVQ': 'W:7:0', 'PRESET': 'W:7:0', 'OPC': 'B:2:1', 'ERRNEXTQ': 'O'}
+
+
+def absspec(spec):
+    if spec and spec.startswith('K:'):
+        f = spec.split(':')
+        o = KOLD.get(f[1], 'Z')
+        return o % int(f[2]) if '%d' in o else o
+    return spec
+
+
 def op_write(reg, v, via_cmd):
     if via_cmd:
         if reg == 'ESE':
-            return cmd('*ESE %d' % v, 'W:3:%d' % v)
+            return cmd('*ESE %d' % v, 'K:ESE:%d' % v)
         if reg == 'SRE':
-            return cmd('*SRE %d' % v, 'W:1:%d' % v)
+            return cmd('*SRE %d' % v, 'K:SRE:%d' % v)
         if reg == 'OPERE':
-            return cmd('STAT:OPER:ENAB %d' % v, 'W:5:%d' % v)
+            return cmd('STAT:OPER:ENAB %d' % v, 'K:OPEREN:%d' % v)
         if reg == 'QUESE':
-            return cmd('STAT:QUES:ENAB %d' % v, 'W:8:%d' % v)
+            return cmd('STAT:QUES:ENAB %d' % v, 'K:QUESEN:%d' % v)
     return 'W %d %d' % (IDX[reg], v)
 
 
 OTHER = ['O', 'C', 'L',
-         cmd('*ESR?', 'W:2:0'), cmd('STAT:OPER?', 'W:4:0'), cmd('STAT:QUES?', 'W:7:0'), cmd('STAT:PRES', 'W:7:0'),
-         cmd('*CLS', 'L'), cmd('SYST:ERR?', 'O'), cmd('*STB?', 'Z'), cmd('*ESE?', 'Z'), cmd('STAT:OPER:EVEN?', 'W:4:0'),
+         cmd('*ESR?', 'K:ESRQ'), cmd('STAT:OPER?', 'K:OPEREVQ'), cmd('STAT:QUES?', 'K:QUESEVQ'), cmd('STAT:PRES', 'K:PRESET'),
+         cmd('*CLS', 'K:CLS'), cmd('SYST:ERR?', 'K:ERRNEXTQ'), cmd('*STB?', 'K:STBQ'), cmd('*ESE?', 'K:ESEQ'), cmd('STAT:OPER:EVEN?', 'K:OPEREVQ'),
          # the remaining mandatory commands: *OPC sets the operation-complete event bit, the others leave status alone
-         cmd('*OPC', 'B:2:1'), cmd('*OPC?', 'Z'), cmd('*RST', 'Z'), cmd('*TST?', 'Z'), cmd('*WAI', 'Z'), cmd('*IDN?', 'Z'), cmd('*SRE?', 'Z'),
-         cmd('SYST:ERR:COUN?', 'Z'), cmd('SYST:VERS?', 'Z'), cmd('STAT:OPER:COND?', 'Z'), cmd('STAT:QUES:COND?', 'Z'),
-         cmd('STAT:OPER:ENAB?', 'Z'), cmd('STAT:QUES:ENAB?', 'Z'), cmd('STAT:QUES:EVEN?', 'W:7:0')]
+         cmd('*OPC', 'K:OPC'), cmd('*OPC?', 'Z'), cmd('*RST', 'Z'), cmd('*TST?', 'Z'), cmd('*WAI', 'Z'), cmd('*IDN?', 'Z'), cmd('*SRE?', 'K:SREQ'),
+         cmd('SYST:ERR:COUN?', 'K:ERRCOUNTQ'), cmd('SYST:VERS?', 'Z'), cmd('STAT:OPER:COND?', 'K:OPERCONDQ'), cmd('STAT:QUES:COND?', 'K:QUESCONDQ'),
+         cmd('STAT:OPER:ENAB?', 'K:OPERENQ'), cmd('STAT:QUES:ENAB?', 'K:QUESENQ'), cmd('STAT:QUES:EVEN?', 'K:QUESEVQ')]
 
 
 def alphabet3():
@@ -85,5 +100,22 @@ def parse_out(out):
 
 
 def project(case, out):
-    # E/Q events and state dumps; output bytes of queries are not part of these properties
-    return ' '.join(t for t in out.split(' ') if t[:1] in ('E', 'Q', 'S', 'R', '?'))
+    # E/Q events and state dumps; the response bytes (W) are kept for the steps that are commands of the command-layer model
+    # (K specs other than SYST:ERR?, whose text belongs to C18), gathered into one token before the step's state dump
+    ops = case.split('|')[1:]
+    toks = []
+    k = 0
+    w = ''
+    for t in out.split(' '):
+        if t[:1] == 'W' and len(t) > 1:
+            w += t[1:]
+        elif t[:1] == 'S' and ';' in t:
+            op = ops[k].split(' ') if k < len(ops) else ['?']
+            if w and op[0] == 'M' and len(op) > 2 and op[2].startswith('K:') and op[2] != 'K:ERRNEXTQ':
+                toks.append('W' + w)
+            w = ''
+            k += 1
+            toks.append(t)
+        elif t[:1] in ('E', 'Q', 'R', '?'):
+            toks.append(t)
+    return ' '.join(toks)
